@@ -15,6 +15,7 @@ Read from the live modules (PYTHONPATH=/repo):
 Fail-closed: every unrecognised shape raises Unrecognised, which makes gen_tables.py exit 1.
 Output: Gen/TablesC09.v (definitions only)."""
 from __future__ import annotations
+import copy
 import ast, inspect, re, textwrap
 from typing import Any, List, Tuple
 
@@ -86,36 +87,123 @@ def handler_table() -> List[Tuple[str, str]]:
         out.append((attr[len('handle_'):], HANDLERS[canon]))
     bound = {h for _, h in out}
     need(bound == set(HANDLERS.values()), 'handlers without a tag: %s' % sorted(set(HANDLERS.values()) - bound))
-    # dispatch: getattr(self, 'handle_' + field.tag, self.handleUnknownField)
+    # dispatch: getattr(self, 'handle_' + field.tag, self.handleUnknownField)(field), possibly through locals that are
+    # assigned once from effect-free expressions (a bound method, the getattr): they are substituted back
     f = method_ast(FieldHandler, 'handle')
+    need([a.arg for a in f.args.args] == ['self', 'field'], 'FieldHandler.handle parameters')
     body = strip_doc(f.body)
-    need(len(body) == 2 and same(body[0], "m = getattr(self, 'handle_' + field.tag, self.handleUnknownField)")
-         and same(body[1], 'm(field)'), 'FieldHandler.handle dispatch')
+    env: dict = {}
+
+    class Sub(ast.NodeTransformer):
+        def visit_Name(self, n: ast.Name) -> ast.AST:
+            if isinstance(n.ctx, ast.Load) and n.id in env:
+                return copy.deepcopy(env[n.id])
+            return n
+    for st in body[:-1]:
+        if isinstance(st, ast.AnnAssign) and st.value is not None and isinstance(st.target, ast.Name):
+            tgt, val = st.target.id, st.value
+        elif isinstance(st, ast.Assign) and len(st.targets) == 1 and isinstance(st.targets[0], ast.Name):
+            tgt, val = st.targets[0].id, st.value
+        else:
+            need(False, 'FieldHandler.handle dispatch: ' + ast.unparse(st)[:80])
+        need(tgt not in env and tgt not in ('self', 'field'), 'FieldHandler.handle dispatch: local assigned twice')
+        val = Sub().visit(copy.deepcopy(val))
+        need(ast.unparse(val) in ('self.handleUnknownField', "getattr(self, 'handle_' + field.tag, self.handleUnknownField)"),
+             'FieldHandler.handle dispatch: ' + ast.unparse(val)[:80])
+        env[tgt] = val
+    need(bool(body) and isinstance(body[-1], ast.Expr), 'FieldHandler.handle dispatch')
+    last = Sub().visit(copy.deepcopy(body[-1].value))
+    need(ast.unparse(last) == "getattr(self, 'handle_' + field.tag, self.handleUnknownField)(field)", 'FieldHandler.handle dispatch')
     return out
 
 
+ANY_DOC = 'any((p.is_documented() for p in self.parameter_descs))'
+
+
 def format_plan() -> List[Tuple[str, str, str, str]]:
-    """[(emit_kind, bucket, label, plural)] in emission order."""
+    """[(emit_kind, bucket, label, plural)] in emission order.
+    Recognised: format() accumulating the rows in a list (`r += f(...)`), or format() that is list(self.<generator>())
+    with the generator doing `yield from f(...)`; locals that alias self.<bucket>; include_params set to True under the
+    Parameters test or assigned that test; the four field lists as a loop over a tuple of triples or as four calls."""
     from pydoctor.epydoc2stan import FieldHandler
     f = method_ast(FieldHandler, 'format')
     body = [s for s in strip_doc(f.body)]
-    need(same(body[0], 'r: List[Tag] = []'), 'format: r initialisation')
-    need(same(body[1], 'include_params = False'), 'format: include_params initialisation')
-    need(same(body[-1], """
-if any(r):
-    return tags.table(class_='fieldTable')(r)
-else:
-    return tags.transparent
-"""), 'format: final return')
+    need(len(body) >= 2, 'format: body')
+
+    def final_return(stmts: List[ast.stmt], acc: str) -> None:
+        """if <rows>: return table(rows) else: return tags.transparent, in any of its spellings"""
+        if len(stmts) == 1 and isinstance(stmts[0], ast.If) and len(stmts[0].body) == 1 and len(stmts[0].orelse) == 1:
+            test, a, b = stmts[0].test, stmts[0].body[0], stmts[0].orelse[0]
+        elif len(stmts) == 2 and isinstance(stmts[0], ast.If) and len(stmts[0].body) == 1 and not stmts[0].orelse:
+            test, a, b = stmts[0].test, stmts[0].body[0], stmts[1]
+        else:
+            need(False, 'format: final return')
+        need(isinstance(a, ast.Return) and isinstance(b, ast.Return) and a.value is not None and b.value is not None, 'format: final return')
+        t = ast.unparse(test)
+        if t in ('not %s' % acc, 'not any(%s)' % acc):
+            a, b = b, a
+        else:
+            need(t in (acc, 'any(%s)' % acc), 'format: final test ' + t[:80])
+        need(ast.unparse(a.value) == "tags.table(class_='fieldTable')(%s)" % acc and ast.unparse(b.value) == 'tags.transparent',
+             'format: final return values')
+
+    if isinstance(body[0], ast.Assign) and len(body[0].targets) == 1 and isinstance(body[0].targets[0], ast.Name) \
+            and isinstance(body[0].value, ast.Call) and ast.unparse(body[0].value.func) == 'list':
+        # rows = list(self._rows())
+        acc = body[0].targets[0].id
+        call = body[0].value
+        need(len(call.args) == 1 and not call.keywords and isinstance(call.args[0], ast.Call) and not call.args[0].args
+             and not call.args[0].keywords and isinstance(call.args[0].func, ast.Attribute)
+             and isinstance(call.args[0].func.value, ast.Name) and call.args[0].func.value.id == 'self', 'format: list(self.<generator>())')
+        final_return(body[1:], acc)
+        g = method_ast(FieldHandler, call.args[0].func.attr)
+        need([a.arg for a in g.args.args] == ['self'] and not g.decorator_list, 'format: the row generator')
+        stmts = strip_doc(g.body)
+        mode = 'gen'
+    else:
+        need(isinstance(body[0], (ast.AnnAssign, ast.Assign)) and ast.unparse(body[0].value) == '[]', 'format: r initialisation')
+        tgt = body[0].target if isinstance(body[0], ast.AnnAssign) else body[0].targets[0]
+        need(isinstance(tgt, ast.Name), 'format: r initialisation')
+        acc = tgt.id
+        k = len(body) - 1
+        if not isinstance(body[k], ast.If):
+            k -= 1
+        final_return(body[k:], acc)
+        stmts = body[1:k]
+        mode = 'acc'
+
     plan: List[Tuple[str, str, str, str]] = []
+    alias: dict = {}            # local -> the expression it stands for (self.<bucket>)
+    ip = {'name': None, 'value': None}      # the include_params local: 'False' or ANY_DOC
+
+    class Sub(ast.NodeTransformer):
+        def visit_Name(self, n: ast.Name) -> ast.AST:
+            if isinstance(n.ctx, ast.Load) and n.id in alias:
+                return copy.deepcopy(alias[n.id])
+            return n
+
+    def sub(e: ast.AST) -> ast.AST:
+        return Sub().visit(copy.deepcopy(e))
+
+    def emitted(stmt: ast.stmt) -> ast.Call:
+        """r += f(...)  /  yield from f(...)  ->  the call"""
+        if mode == 'acc':
+            need(isinstance(stmt, ast.AugAssign) and isinstance(stmt.op, ast.Add) and isinstance(stmt.target, ast.Name)
+                 and stmt.target.id == acc and isinstance(stmt.value, ast.Call), 'format: not `r += f(...)`: ' + ast.unparse(stmt)[:120])
+            return stmt.value
+        need(isinstance(stmt, ast.Expr) and isinstance(stmt.value, ast.YieldFrom) and isinstance(stmt.value.value, ast.Call),
+             'format: not `yield from f(...)`: ' + ast.unparse(stmt)[:120])
+        return stmt.value.value
+
+    def is_emit(stmt: ast.stmt) -> bool:
+        return (isinstance(stmt, ast.AugAssign) if mode == 'acc'
+                else isinstance(stmt, ast.Expr) and isinstance(stmt.value, ast.YieldFrom))
 
     def desc_list_call(stmt: ast.stmt) -> Tuple[Any, ast.expr]:
-        """r += format_desc_list(<label>, <arg>)  ->  (label expr, arg expr)"""
-        need(isinstance(stmt, ast.AugAssign) and isinstance(stmt.op, ast.Add) and isinstance(stmt.target, ast.Name)
-             and stmt.target.id == 'r' and isinstance(stmt.value, ast.Call) and isinstance(stmt.value.func, ast.Name)
-             and stmt.value.func.id == 'format_desc_list' and len(stmt.value.args) == 2 and not stmt.value.keywords,
-             'format: not `r += format_desc_list(label, descs)`: ' + ast.dump(stmt)[:200])
-        return stmt.value.args[0], stmt.value.args[1]
+        c = emitted(stmt)
+        need(isinstance(c.func, ast.Name) and c.func.id == 'format_desc_list' and len(c.args) == 2 and not c.keywords,
+             'format: not format_desc_list(label, descs): ' + ast.unparse(stmt)[:120])
+        return c.args[0], sub(c.args[1])
 
     def self_attr(e: ast.expr) -> str:
         need(isinstance(e, ast.Attribute) and isinstance(e.value, ast.Name) and e.value.id == 'self'
@@ -126,51 +214,75 @@ else:
         need(isinstance(e, ast.Constant) and isinstance(e.value, str), 'format: label is not a literal')
         return e.value
 
-    for stmt in body[2:-1]:
-        if isinstance(stmt, ast.If):
+    for stmt in stmts:
+        if isinstance(stmt, ast.AnnAssign) and stmt.value is not None:
+            stmt = ast.copy_location(ast.Assign(targets=[stmt.target], value=stmt.value), stmt)
+        if isinstance(stmt, ast.Assign):
+            need(len(stmt.targets) == 1 and isinstance(stmt.targets[0], ast.Name), 'format: assignment ' + ast.unparse(stmt)[:80])
+            name, val = stmt.targets[0].id, sub(stmt.value)
+            need(name != acc and name not in alias, 'format: assignment ' + ast.unparse(stmt)[:80])
+            if ast.unparse(val) in ('False', ANY_DOC) and ip['name'] in (None, name) and ip['value'] is None:
+                ip['name'], ip['value'] = name, ast.unparse(val)
+            else:
+                self_attr(val)
+                alias[name] = val
+        elif isinstance(stmt, ast.If):
             need(not stmt.orelse, 'format: if with else')
-            if same(stmt.test, 'any(p.is_documented() for p in self.parameter_descs)'):
-                need(len(stmt.body) == 2 and same(stmt.body[1], 'include_params = True'), 'format: Parameters block')
+            test = ast.unparse(sub(stmt.test))
+            if test == ANY_DOC or (ip['name'] is not None and test == ip['name'] and ip['value'] == ANY_DOC):
+                if ip['value'] == 'False' and test == ANY_DOC:
+                    need(len(stmt.body) == 2 and ast.unparse(stmt.body[1]) == '%s = True' % ip['name'], 'format: Parameters block')
+                    ip['value'] = ANY_DOC          # False before, True under the test: the value of the test
+                else:
+                    need(len(stmt.body) == 1 and ip['value'] == ANY_DOC, 'format: Parameters block')
                 lab, arg = desc_list_call(stmt.body[0])
                 need(self_attr(arg) == 'parameter_descs', 'format: Parameters bucket')
                 plan.append(('EParams', 'BParams', const_str(lab), ''))
-            elif same(stmt.test, 'self.return_desc and (include_params or self.return_desc.is_documented())'):
+            elif ip['value'] == ANY_DOC and test == 'self.return_desc and (%s or self.return_desc.is_documented())' % ip['name']:
                 need(len(stmt.body) == 1, 'format: Returns block')
                 lab, arg = desc_list_call(stmt.body[0])
-                need(same(arg, '[self.return_desc]'), 'format: Returns bucket')
+                need(ast.unparse(arg) == '[self.return_desc]', 'format: Returns bucket')
                 plan.append(('EReturn', 'BReturn', const_str(lab), ''))
-            elif same(stmt.test, 'self.yields_desc'):
+            elif test == 'self.yields_desc':
                 need(len(stmt.body) == 1, 'format: Yields block')
                 lab, arg = desc_list_call(stmt.body[0])
-                need(same(arg, '[self.yields_desc]'), 'format: Yields bucket')
+                need(ast.unparse(arg) == '[self.yields_desc]', 'format: Yields bucket')
                 plan.append(('EYield', 'BYield', const_str(lab), ''))
             else:
-                need(False, 'format: unknown condition ' + ast.dump(stmt.test)[:200])
-        elif isinstance(stmt, ast.AugAssign):
-            lab, arg = desc_list_call(stmt)
-            plan.append(('EDescList', BUCKETS[self_attr(arg)], const_str(lab), ''))
+                need(False, 'format: unknown condition ' + test[:200])
+        elif is_emit(stmt):
+            c = emitted(stmt)
+            if isinstance(c.func, ast.Name) and c.func.id == 'format_field_list':
+                need(len(c.args) == 3 and not c.keywords, 'format: format_field_list(singular, plural, fields)')
+                plan.append(('EFieldList', BUCKETS[self_attr(sub(c.args[2]))], const_str(c.args[0]), const_str(c.args[1])))
+            else:
+                lab, arg = desc_list_call(stmt)
+                plan.append(('EDescList', BUCKETS[self_attr(arg)], const_str(lab), ''))
         elif isinstance(stmt, ast.For):
-            need(not stmt.orelse and len(stmt.body) == 1, 'format: for shape')
-            if same(stmt.body[0], 'r += format_field_list(*s_p_l)'):
-                need(isinstance(stmt.target, ast.Name) and stmt.target.id == 's_p_l' and isinstance(stmt.iter, ast.Tuple),
-                     'format: field-list loop header')
+            need(not stmt.orelse and len(stmt.body) == 1 and is_emit(stmt.body[0]), 'format: for shape')
+            c = emitted(stmt.body[0])
+            if ast.unparse(c) == 'format_field_list(*%s)' % ast.unparse(stmt.target):
+                need(isinstance(stmt.target, ast.Name) and isinstance(stmt.iter, ast.Tuple), 'format: field-list loop header')
                 for el in stmt.iter.elts:
                     need(isinstance(el, ast.Tuple) and len(el.elts) == 3, 'format: (singular, plural, bucket) triple')
-                    plan.append(('EFieldList', BUCKETS[self_attr(el.elts[2])], const_str(el.elts[0]), const_str(el.elts[1])))
-            elif same(stmt.iter, 'self.unknowns.items()'):
-                need(same(stmt.target, '(kind, fieldlist)') or ast.dump(stmt.target) == ast.dump(
-                    ast.parse('for kind, fieldlist in x: pass').body[0].target), 'format: unknowns loop target')
-                lab, arg = desc_list_call(stmt.body[0])
-                need(isinstance(arg, ast.Name) and arg.id == 'fieldlist', 'format: unknowns bucket')
+                    plan.append(('EFieldList', BUCKETS[self_attr(sub(el.elts[2]))], const_str(el.elts[0]), const_str(el.elts[1])))
+            elif ast.unparse(stmt.iter) == 'self.unknowns.items()':
+                need(isinstance(stmt.target, ast.Tuple) and len(stmt.target.elts) == 2
+                     and all(isinstance(x, ast.Name) for x in stmt.target.elts), 'format: unknowns loop target')
+                kind, fl = stmt.target.elts[0].id, stmt.target.elts[1].id
+                need(isinstance(c.func, ast.Name) and c.func.id == 'format_desc_list' and len(c.args) == 2 and not c.keywords,
+                     'format: unknowns loop body')
+                lab, arg = c.args
+                need(isinstance(arg, ast.Name) and arg.id == fl, 'format: unknowns bucket')
                 need(isinstance(lab, ast.JoinedStr) and len(lab.values) == 2 and isinstance(lab.values[0], ast.Constant)
                      and isinstance(lab.values[1], ast.FormattedValue) and isinstance(lab.values[1].value, ast.Name)
-                     and lab.values[1].value.id == 'kind' and lab.values[1].conversion == -1
+                     and lab.values[1].value.id == kind and lab.values[1].conversion == -1
                      and lab.values[1].format_spec is None, 'format: unknown-field label')
                 plan.append(('EUnknowns', 'BUnknowns', lab.values[0].value, ''))
             else:
-                need(False, 'format: unknown loop ' + ast.dump(stmt)[:200])
+                need(False, 'format: unknown loop ' + ast.unparse(stmt)[:200])
         else:
-            need(False, 'format: unknown statement ' + ast.dump(stmt)[:200])
+            need(False, 'format: unknown statement ' + ast.unparse(stmt)[:200])
     return plan
 
 
